@@ -67,6 +67,10 @@ def _op_dict():
         st.tuples(st.just("popidx"), _idx),
         st.tuples(st.just("poplast")),
         st.tuples(st.just("remove"), _idx),
+        # remove() given an object equal to a member but not identical with it (list.remove goes by equality)
+        st.tuples(st.just("remove"), _idx, st.just(True)),
+        # pop(<missing key>, default): like dict.pop it returns the default and changes nothing
+        st.tuples(st.just("pop_default"), _idx),
         st.tuples(st.just("clear")),
         st.tuples(st.just("replace"), st.lists(_idx, max_size=4)),
         st.tuples(st.just("setval"), _idx, st.booleans()),
@@ -361,8 +365,26 @@ def execute(case):
                 continue
             i = op[1] % len(model)
             _, o = model.pop(i)
+            if len(op) > 2 and op[2]:
+                twin = (tuple(list(o)) if isinstance(o, tuple) else list(o) if isinstance(o, list) else dict(o) if isinstance(o, dict)
+                        else int(str(o)) if isinstance(o, int) and not isinstance(o, bool) and o >= 1000 else o)
+                if twin is not o:
+                    res.label("remove_equal_but_distinct_object")
+                o = twin
             objs.remove(o)
             removal = True
+        elif name == "pop_default":
+            if not model or unl():
+                continue
+            dflt = object()
+            got = objs.pop("no-such-key", dflt)
+            if got is not dflt:
+                res.fail("C18.pop_return", f"{tag}: pop(<missing key>, default) returned {got!r} instead of the default")
+            mutated = False
+            if len(log) != nlog:
+                res.fail("C18.watcher_once", f"{tag}: nothing was removed but the objects watcher was called {len(log) - nlog} time(s)")
+                nlog = len(log)
+            res.label("pop_missing_key_with_default")
         elif name == "clear":
             if not model:
                 noclaim = True  # nothing changes: a changes-only watcher is rightly silent
